@@ -463,8 +463,10 @@ func runC13(c *core.Ctx) {
 							}
 							return core.Continue
 						}, nil)
-						// a path Next -> Next without Close means some element is skipped (ok only for the exit edge)
-						_ = t
+						// a path Next -> Next without Close means some element is skipped
+						if t != nil {
+							okIter, why = false, "CloseAll can move on to the next channel without closing the current one (a channel is skipped: it stays open after Shutdown)"
+						}
 						// early exit: from Close, a return must be reachable only via Next (loop exhaustion)
 						t2, _ := core.Search(closeIn, nil, func(x ssa.Instruction) core.Action {
 							if x == next {
@@ -993,6 +995,40 @@ func runC13Listener(c *core.Ctx, e *ev, br *bsRoles, serverClosed *ssa.Global) {
 	}}
 	bad, _ := del.MustPassBetween(nil, cl.Blocks[0], nil, core.IsNormalReturn, nil)
 	c.Check(bad == nil, "R6", "listener-Close/deregisters", p.Pos(cl.Pos()), "Close removes the listener from the registry", "Listener.Close does not deregister the listener")
+	// and only Close does: a listener that leaves the registry any other way (an error path of Sync "releasing the
+	// url") can be started again and is then invisible to Shutdown
+	c.Instance("R6")
+	other := ""
+	for _, fn := range p.Funcs {
+		if p.PkgRel(fn) != "." {
+			continue
+		}
+		core.AllInstrs(fn, func(x ssa.Instruction) {
+			if !del.Pred(x) {
+				return
+			}
+			// the deletion itself, or the function that performs it, must be reached only from the listener's Close
+			owner := core.Outermost(fn)
+			if owner == cl {
+				return
+			}
+			for _, g := range p.Funcs {
+				if p.PkgRel(g) != "." {
+					continue
+				}
+				core.AllInstrs(g, func(y ssa.Instruction) {
+					cc := core.CallCommon(y)
+					if cc == nil || cc.IsInvoke() || cc.StaticCallee() != owner {
+						return
+					}
+					if core.Outermost(g) != cl {
+						other = p.InstrPos(y)
+					}
+				})
+			}
+		})
+	}
+	c.Check(other == "", "R6", "listener-registry/only-Close-deregisters", p.Pos(cl.Pos()), "the registry entry is removed only on behalf of Listener.Close", "a listener is removed from the registry outside Listener.Close ("+other+"): it can still be started afterwards and Shutdown will not find it")
 }
 
 func transportOfAccept(a ssa.Instruction) ssa.Value {
